@@ -300,17 +300,11 @@ def check_catalog_case(cid, modes, acc=None, double=False):
             acc.tally("catalog_status", "skip_numeric_validation")
         return out
     # data-dependent loops may not terminate (or run for ages) on inputs far from the authors' range, and an eager JAX
-    # while_loop cannot be interrupted: such callables only see the benign pool
-    try:
-        import jax
-
-        jp = str(jax.make_jaxpr(lambda *a: p.fn(*a, **p.params))(*[jax.ShapeDtypeStruct(tuple(3 if isinstance(d, str) else d for d in sh_), dt_)
-                                                                   for sh_, dt_ in zip(p.shapes, p.dtypes)]))
-        has_while = " while[" in jp or "while_loop" in jp
-    except Exception:
-        has_while = False
+    # while_loop cannot be interrupted: such callables only see the authors' values / the benign pool (catalog.feeds)
+    has_while = catalog.has_data_dependent_loop(p)
     if has_while:
-        modes = [3]
+        # authors' exact values when they give some (mode 0 == scale 1.0), the benign pool otherwise
+        modes = [0] if p.base is not None else [3]
         if acc:
             acc.tally("catalog_status", "data_dependent_loop(benign_inputs_only)")
     if "random" in str(case["context"]).lower():
@@ -339,8 +333,15 @@ def check_catalog_case(cid, modes, acc=None, double=False):
             got = sess.run(None, catalog.ort_feeds(p, sess, fds))
         except Exception as e:
             msg = str(e)
-            wide_int = any(np.asarray(f).dtype.kind in "iu" for f in fds) and mode in (1, 2) and p.base is None
+            # drawn values used as indices (integer inputs, or float token ids that the callable casts) may leave [0, extent)
+            wide_int = mode in (1, 2) and p.base is None
             index_node = any(k in msg for k in ("Gather", "Scatter", "OneHot", "Slice", "indices", "out of data bounds", "out of range", "out of bounds"))
+            if isinstance(e, MemoryError) or not msg.strip() or any(k in msg for k in ("bad allocation", "bad_alloc", "Failed to allocate", "out of memory")):
+                # resource exhaustion under 16 parallel workers says nothing about the model
+                if acc:
+                    acc.inconclusive += 1
+                    acc.tally("catalog_status", "resource_exhausted(inconclusive)")
+                continue
             if wide_int and index_node:
                 # an index beyond the extent: JAX clamps by convention, the callable's domain is [0, extent)
                 if acc:
